@@ -153,7 +153,8 @@ class FaultEngine(SingleBase):
             pre = mdl.clone()
             pre_obs = observe_all(w)
             kinds = seam.FAULT_KINDS_CORE | seam.FAULT_KINDS_EXT if fspec.get("kinds") == "ext" else seam.FAULT_KINDS_CORE
-            fp = seam.FaultPlan(fspec["index"], ERRNOS[fspec.get("errno", "EIO")], bool(fspec.get("persistent")), kinds)
+            pers = fspec.get("persistent") or False
+            fp = seam.FaultPlan(fspec["index"], ERRNOS[fspec.get("errno", "EIO")], pers, kinds)
             w.run.fault = fp
             mark = len(w.run.log)
             out, extra = w.exec_op(call)
@@ -167,7 +168,7 @@ class FaultEngine(SingleBase):
                 return
             ev = fp.fired
             site = {"kind": ev.kind, "cls": ev.cls, "op": ev.op, "errno": fspec.get("errno", "EIO"),
-                    "persistent": bool(fspec.get("persistent")), "times": fp.fired_n}
+                    "persistent": fspec.get("persistent") or False, "times": fp.fired_n}
             res.stats["site"] = site
             res.stats["faults"] = {"%s:%s" % (ev.kind, fspec.get("errno", "EIO")): fp.fired_n}
             res.flags.add("out:" + _outsig(out))
